@@ -46,8 +46,8 @@ FAMILIES = {
                       mc("MCReopenQ", "1 vBucket, seqnos <=3, <=2 transient ends (fail-over), re-open answered ok / ROLLBACK(r), history "
                                       "above r discarded and re-generated with new snapshots, 1 ack")],
             "thorough": [mc("MCGen", "1 vBucket, seqnos <=3, all kinds x key classes x old, bad events, rollback, 1 crash", 5000),
-                         mc("MCReopen", "1 vBucket, seqnos <=3, 2 transient ends (fail-over, socket), re-open answered ok / ROLLBACK(r) with "
-                                        "the history above r discarded, mut + seqno-advanced, 1 save, 1 ack", 5000)],
+                         mc("MCReopen", "1 vBucket, seqnos <=3, 2 fail-overs while streaming, re-open answered ok / ROLLBACK(r) with "
+                                        "the history above r discarded, mut + seqno-advanced, 1 ack", 5000)],
         },
         "simulate": {"quick": [sim("SimGen", 150, 36), sim("SimReopen", 40, 44)],
                      "thorough": [sim("SimGen", 2500, 44), sim("SimGen2", 1200, 44), sim("SimReopen", 800, 50)]},
@@ -94,7 +94,8 @@ FAMILIES["metric"] = {
     # Core.tla with the metrics endpoint scraped at any point: real metric.NewMetricCollector(...).Collect
     "driver": "core", "monitor": "MonTrace",
     "exhaustive": {"quick": [mc("MCMetricQ", "2 vBuckets, scrapes anywhere, 1 notification, 1 ack, consumer may block")],
-                   "thorough": [mc("MCMetric", "2 vBuckets, scrapes anywhere and from every lifecycle callback, mut/del, reserved keys, 1 notification, 1 end, Close(), 1 ack", 5000)]},
+                   "thorough": [mc("MCMetric", "2 vBuckets, scrapes anywhere and from every lifecycle callback, mut/del, reserved keys, 1 notification, Close(), 1 ack, consumer may block", 5000),
+                                mc("MCMetric2", "2 vBuckets, scrapes anywhere and from every lifecycle callback, 1 stream end of every cause, Close(), 1 ack", 5000)]},
     "simulate": {"quick": [sim("SimMetric", 80, 55, isolate=True)], "thorough": [sim("SimMetric", 900, 55, isolate=True)]},
     "scenarios": [],
 }
